@@ -28,6 +28,8 @@ INPLACE = {"sort", "fill", "put", "partition", "resize", "itemset", "reverse", "
 def check(ctx):
     repo = ctx.repo
     from . import generic
+    generic.value_casts(ctx, [f for f in generic.module_functions(repo, "dataiter.aggregate") if "numba" in f.name],
+                        "the compiled kernel returns the same values as the Python kernel for every element type it is admitted for")
     generic.inplace_options(ctx, generic.module_functions(repo, "dataiter.aggregate"),
                             "the same values whatever aggregations were run before it, in the same call")
     for r, t in (("SIB-8", "python/numba twin agreement and dispatch order"),
@@ -206,6 +208,17 @@ def check(ctx):
     tests_x = [_expand08(nk, t, t) for t in tests]
     okb = any(_pm(f"0 <= {idx} < len(_G) or -len(_G) <= {idx} < 0", t) is not None or _pm(f"-len(_G) <= {idx} < len(_G)", t) is not None
               or _pm(f"-len(_G) <= {idx} < 0 or 0 <= {idx} < len(_G)", t) is not None for t in tests_x)
+    if not okb:
+        # any other spelling of the same test, decided exactly (sa/intpred.py): either polarity
+        from ..intpred import equals_valid_index
+        import re as _re08
+        for t in tests_x:
+            lens = sorted(set(_re08.findall(r"len\(\w+\)", norm(t))))
+            if idx in norm(t) and len(lens) == 1:
+                v1, _w = equals_valid_index(t, idx, lens)
+                v2, _w = equals_valid_index(ast.UnaryOp(op=ast.Not(), operand=t), idx, lens)
+                if v1 or v2:
+                    okb = True
     ctx.ob("SIB-8", nk, f"index validity test {[norm(t) for t in tests]}", tests[0] if tests else nk.node, okb,
            "the Numba kernel accepts exactly the indices Python indexing accepts (-len <= index < len), like the try/except IndexError of the Python kernel" if okb else
            "the Numba kernel's bounds test is not -len(group) <= index < len(group): for some index (e.g. index == -len) it yields the "
